@@ -4,6 +4,7 @@ pub mod canon;
 pub mod cases;
 pub mod fil;
 pub mod genil;
+pub mod lift;
 pub mod rng;
 pub mod sx;
 
